@@ -9,6 +9,7 @@ import XzVerif.Model.GFlag
 import XzVerif.Model.Writer2
 import XzVerif.Model.Ring
 import XzVerif.Model.Writer1
+import XzVerif.Model.XzWriter
 /-
   driver — line protocol around the executable definitions of Spec and Model.
   One request per line on stdin, one reply line on stdout.  Core-only, so it links.
@@ -354,6 +355,10 @@ def handle (line : String) : String :=
         | none => "ok" | some .noSpace => "nospace" | some .size => "size" | some (.other _) => "other"
       " ".intercalate (rs.map (fun (n, e) => s!"{n}:{en e}")) ++ " | " ++ (match out with | some o => hex o | none => "none")
     | _, _, _, _, _ => "bad-op"
+  -- xwrun <blockSize> <len>... → uncompressed sizes of the blocks after Write(len)… Close
+  | "xwrun" :: bs :: lens => match bs.toNat?, lens.mapM String.toNat? with
+    | some bs, some lens => " ".intercalate ((XW.run bs lens).blocks.map toString)
+    | _, _ => "bad-op"
   | ["lzmaops", h] =>
     let r := Lzma1.read 0 (unhex h)
     " ".intercalate (r.ops.toList.map opStr)
